@@ -11,6 +11,8 @@
 """
 from __future__ import annotations
 
+import contextlib
+import io
 import itertools
 import json
 import os
@@ -19,7 +21,7 @@ import sys
 import warnings
 from typing import Any, Callable, Dict, List, Tuple
 
-from mcx.core import VERIF, Ctx, HarnessError, Part, digest, jdump, pmap
+from mcx.core import VERIF, Ctx, HarnessError, Part, digest, jdump, pmap, repo_root
 from odxmodel import emit, harness, refodx, space
 from odxmodel.harness import jval, show
 from odxmodel.space import P, U8, std
@@ -44,6 +46,7 @@ def menu_db() -> Dict[str, Any]:
     lib += [
         {"name": "utf8_2", "dct": std("A_UTF8STRING", 16)},
         {"name": "i8", "dct": std("A_INT32", 8)},
+        {"name": "badenc", "dct": std("A_ASCIISTRING", 16, "2C")},  # an encoding that is illegal for strings
     ]
     msgs = [
         {"kind": "REQUEST", "name": "rq_v8", "params": [P("CODED-CONST", "sid", dct=U8, value=0x22), P("VALUE", "v", dop="u8")]},
@@ -51,6 +54,7 @@ def menu_db() -> Dict[str, Any]:
         {"kind": "REQUEST", "name": "rq_dtc", "params": [P("VALUE", "d", dop="dtc3")]},
         {"kind": "REQUEST", "name": "rq_mux", "params": [P("VALUE", "m", dop="MUXn")]},
         {"kind": "REQUEST", "name": "rq_pc", "params": [P("PHYS-CONST", "pc", dop="i8lin", const=7)]},
+        {"kind": "REQUEST", "name": "rq_badenc", "params": [P("VALUE", "s", dop="badenc")]},
         {"kind": "REQUEST", "name": "rq_sf", "params": [P("VALUE", "f", dop="SF2")]},
         {"kind": "REQUEST", "name": "rq_bz", "params": [P("VALUE", "b", dop="bmin2")]},
     ]
@@ -77,8 +81,13 @@ _MENU_STATE: Dict[str, Any] = {}
 def menu_objs() -> Dict[str, Any]:
     """The menu's database is loaded ONCE in strict mode (what a CLI does); operations run on these objects."""
     if "msg" not in _MENU_STATE:
+        import odxtools.exceptions
+        prev = odxtools.exceptions.strict_mode
         set_mode(True)
-        db = emit.load_db(menu_db())
+        try:
+            db = emit.load_db(menu_db())
+        finally:
+            set_mode(prev)
         raw = db.diag_layers["L"].diag_layer_raw
         _MENU_STATE["msg"] = {m.short_name: m for m in raw.requests}
     return _MENU_STATE["msg"]
@@ -96,6 +105,45 @@ def _outcome(fn: Callable[[], Any]) -> Tuple[str, Any]:
     return ("ok", json.loads(jdump(show(r))))
 
 
+_CLI_SINK = io.StringIO()
+_TINY: Dict[int, str] = {}
+
+
+def tiny_pdx() -> str:
+    """A one-layer PDX file for the CLI runs (written once per process into the scratch directory)."""
+    pid = os.getpid()
+    if pid not in _TINY or not os.path.exists(_TINY[pid]):
+        import zipfile
+        d = emit.scratch_dir()
+        path = os.path.join(d, "tiny_c17.pdx")
+        layer = {"type": "BASE-VARIANT", "name": "T", "dops": [{"name": "u8", "dct": U8}],
+                 "msgs": [{"kind": "REQUEST", "name": "rq", "params": [P("CODED-CONST", "sid", dct=U8, value=0x3E), P("VALUE", "v", dop="u8")]}],
+                 "svcs": [{"name": "svc", "request": "rq"}]}
+        with zipfile.ZipFile(path, "w") as z:
+            for fn, xml in emit.db_files({"containers": [{"name": "TC", "layers": [layer]}]}).items():
+                z.writestr(fn, xml)
+        _TINY[pid] = path
+    return _TINY[pid]
+
+
+def _cli(argv: List[str]) -> Any:
+    """Run the odxtools command line front end in-process (as a calling program or test would)."""
+    import odxtools.cli.main as climain
+    old = sys.argv
+    sys.argv = ["odxtools"] + argv
+    try:
+        with contextlib.redirect_stdout(_CLI_SINK), contextlib.redirect_stderr(_CLI_SINK):
+            try:
+                climain.start_cli()
+            except SystemExit as e:
+                return f"exit {e.code}"
+        return "returned"
+    finally:
+        sys.argv = old
+        _CLI_SINK.seek(0)
+        _CLI_SINK.truncate()
+
+
 def _load_summary(spec: Dict[str, Any]) -> Any:
     db = emit.load_db(spec)
     return sorted(l.short_name for l in db.diag_layers)
@@ -110,13 +158,19 @@ MENU: List[Tuple[str, Callable[[], Any]]] = [
     ("decode-phys-const-mismatch", lambda: menu_objs()["rq_pc"].decode(bytes([0x09]))),
     ("encode-static-field-wrong-count", lambda: menu_objs()["rq_sf"].encode(f=[{"a": 1, "b": 2}, {"a": 1, "b": 2}, {"a": 3, "b": 4}])),
     ("encode-minmax-too-short", lambda: menu_objs()["rq_bz"].encode(b=b"\x41")),
+    ("encode-string-with-illegal-encoding", lambda: menu_objs()["rq_badenc"].encode(s="AB")),
     ("load-dangling-reference", lambda: _load_summary(dangling_db())),
     ("load-unresolvable-snref", lambda: _load_summary(ambiguous_snref_db())),
     # control: a mode-insensitive valid operation
     ("encode-valid", lambda: menu_objs()["rq_v8"].encode(v=7)),
+    # the command line front end switches the mode itself and must put it back, whatever the tool does
+    ("cli-no-strict-list", lambda: _cli(["--no-strict", "list", tiny_pdx()])),
+    ("cli-no-strict-failing-tool", lambda: _cli(["--no-strict", "list", "/nonexistent/file.pdx"])),
+    ("cli-strict-failing-tool", lambda: _cli(["list", "/nonexistent/file.pdx"])),
 ]
 MENU_NAMES = [n for n, _ in MENU]
-DOWNGRADABLE = set(MENU_NAMES) - {"encode-valid"}
+CLI_OPS = {"cli-no-strict-list", "cli-no-strict-failing-tool", "cli-strict-failing-tool"}
+DOWNGRADABLE = set(MENU_NAMES) - {"encode-valid"} - CLI_OPS
 
 
 def baseline_main() -> None:
@@ -151,11 +205,49 @@ def fresh_baseline(strict: bool) -> Dict[str, Any]:
 
 def run_schedule(ops: Tuple[int, ...], modes: Tuple[bool, ...]) -> List[Tuple[str, Any]]:
     out = []
+    import odxtools.exceptions
     for op, mode in zip(ops, modes):
         set_mode(mode)
-        out.append(_outcome(MENU[op][1]))
+        o = _outcome(MENU[op][1])
+        if odxtools.exceptions.strict_mode is not mode:
+            o = ("mode-left-changed", o[1])
+        out.append(o)
     set_mode(True)
     return out
+
+
+def reproduces_in_fresh_process(case: Dict[str, Any], key: str) -> bool:
+    code = ("import sys, json; sys.path.insert(0, %r); from mcx.core import sub_replay; sub_replay(%r, sys.stdin.read())" % (VERIF, PROPERTY))
+    r = subprocess.run([sys.executable, "-W", "ignore", "-c", code], input=json.dumps(case), capture_output=True, text=True, cwd=VERIF)
+    lines = [l for l in r.stdout.splitlines() if l.startswith("SUBRESULT ")]
+    if not lines:
+        return False
+    return any(k == key for k, _ in json.loads(lines[-1][len("SUBRESULT "):]))
+
+
+_REPRO_DONE: Dict[str, Any] = {}
+
+
+def minimal_reproducer(key: str, op: int, mode: bool, ops: Tuple[int, ...], modes: Tuple[bool, ...]) -> Dict[str, Any]:
+    """All schedules of a worker run in ONE process, so hidden state (a stale cache) may leak from earlier
+    schedules.  Find a short schedule that shows the violation from a FRESH process: the schedule itself, then
+    [same operation in the other mode, operation], then every two-step schedule ending in the operation."""
+    if key in _REPRO_DONE:
+        return _REPRO_DONE[key]
+    cands: List[Tuple[Tuple[int, ...], Tuple[bool, ...]]] = [(ops, modes), ((op, op), (not mode, mode))]
+    for y in range(len(MENU)):
+        for m in (True, False):
+            cands.append(((y, op), (m, mode)))
+    chosen = None
+    for co, cm in cands[:40]:
+        case = {"mode": "schedule", "ops": [MENU_NAMES[o] for o in co], "modes": list(cm)}
+        if reproduces_in_fresh_process(case, key):
+            chosen = case
+            break
+    if chosen is None:
+        chosen = {"mode": "schedule", "ops": [MENU_NAMES[o] for o in ops], "modes": list(modes), "not_reproduced_alone": True}
+    _REPRO_DONE[key] = chosen
+    return chosen
 
 
 def schedule_unit(unit: Tuple[int, int, Dict[str, Any], Dict[str, Any]]) -> Part:
@@ -173,11 +265,19 @@ def schedule_unit(unit: Tuple[int, int, Dict[str, Any], Dict[str, Any]]) -> Part
                     seen_states.add((ops[:i + 1], modes[:i + 1]))
                     want = (base_s if mode else base_l)[MENU_NAMES[op]]
                     got_n = (got[0], got[1])
+                    if got[0] == "mode-left-changed":
+                        part.violation(f"C17/flip/{MENU_NAMES[op]}/leaves-the-mode-changed",
+                                       {"mode": "schedule", "ops": [MENU_NAMES[o] for o in ops[:i + 1]], "modes": list(modes[:i + 1])},
+                                       f"after {MENU_NAMES[op]} in {'strict' if mode else 'lenient'} mode odxtools.exceptions.strict_mode is {not mode}")
+                        continue
                     if tuple(want) != got_n and json.dumps(list(want)) != json.dumps(list(got_n)):
                         hist = "".join("S" if m else "L" for m in modes[:i + 1])
                         flipped = len(set(modes[:i + 1])) > 1
-                        part.violation(f"C17/flip/{MENU_NAMES[op]}/{'strict' if mode else 'lenient'}-step-differs-from-fresh-process",
-                                       {"mode": "schedule", "ops": [MENU_NAMES[o] for o in ops[:i + 1]], "modes": list(modes[:i + 1])},
+                        key = f"C17/flip/{MENU_NAMES[op]}/{'strict' if mode else 'lenient'}-step-differs-from-fresh-process"
+                        case = minimal_reproducer(key, op, mode, ops[:i + 1], modes[:i + 1])
+                        if case.get("not_reproduced_alone"):
+                            continue  # (state leaked from an earlier schedule and no short reproducer exists: not reported)
+                        part.violation(key, case,
                                        f"modes {hist}{' (flipped)' if flipped else ''}: {MENU_NAMES[op]} gave {got_n}, a fresh {'strict' if mode else 'lenient'} process gives {tuple(want)}")
                 part.add("nontrivial", digest((ops, modes)))
     part.sets["states"] = seen_states
@@ -247,6 +347,71 @@ def corpus_unit(unit: Tuple[str, List[Dict[str, Any]]]) -> Part:
     return part
 
 
+def dispatch_db() -> Dict[str, Any]:
+    dops = [{"name": "u8", "dct": U8}, {"name": "u16", "dct": std("A_UINT32", 16)},
+            {"name": "bmin3", "dct": {"k": "MINMAX", "base": "A_BYTEFIELD", "min": 3, "max": 5, "term": "ZERO"}},
+            {"name": "utf8", "dct": {"k": "MINMAX", "base": "A_UTF8STRING", "min": 1, "max": 4, "term": "ZERO"}}]
+    cc = lambda n, v: P("CODED-CONST", n, dct=U8, value=v)  # noqa
+    msgs = [
+        {"kind": "REQUEST", "name": "rq_A", "params": [cc("sid", 0x22), cc("id", 0x01)]},
+        {"kind": "POS-RESPONSE", "name": "pr_A1", "params": [cc("sid", 0x62), P("VALUE", "s", dop="bmin3")]},
+        {"kind": "POS-RESPONSE", "name": "pr_A2", "params": [cc("sid", 0x62), P("VALUE", "v", dop="u8")]},
+        {"kind": "POS-RESPONSE", "name": "pr_A3", "params": [cc("sid", 0x62), P("VALUE", "t", dop="utf8")]},
+        {"kind": "REQUEST", "name": "rq_C", "params": [cc("sid", 0x10), P("VALUE", "v", dop="u8")]},
+        {"kind": "REQUEST", "name": "rq_D", "params": [cc("sid", 0x10), P("VALUE", "w", dop="u16")]},
+        {"kind": "POS-RESPONSE", "name": "pr_C", "params": [cc("sid", 0x50), P("VALUE", "v", dop="u8")]},
+        {"kind": "POS-RESPONSE", "name": "pr_D", "params": [cc("sid", 0x50), P("VALUE", "w", dop="u16")]},
+    ]
+    svcs = [{"name": "svc_A", "request": "rq_A", "pos": ["pr_A1", "pr_A2", "pr_A3"]},
+            {"name": "svc_C", "request": "rq_C", "pos": ["pr_C"]}, {"name": "svc_D", "request": "rq_D", "pos": ["pr_D"]}]
+    return {"containers": [{"name": "CDI", "layers": [{"type": "BASE-VARIANT", "name": "LDI", "dops": dops, "msgs": msgs, "svcs": svcs}]}]}
+
+
+def _layer_outcome(fn: Callable[[], Any]) -> Tuple[str, Any]:
+    with warnings.catch_warnings():
+        warnings.simplefilter("ignore")
+        try:
+            r = fn()
+        except BaseException as e:  # noqa
+            if isinstance(e, (KeyboardInterrupt, SystemExit)):
+                raise
+            return ("error", type(e).__name__)
+    return ("ok", sorted(json.loads(jdump([[getattr(getattr(m, "service", None), "short_name", None), getattr(getattr(m, "coding_object", None), "short_name", None),
+                                             show(getattr(m, "param_dict", None))] for m in (r or [])])), key=jdump))
+
+
+def dispatch_unit(shard: Tuple[int, int, int]) -> Part:
+    """Layer-level decoding (candidate elimination relies on exceptions) in both modes: strict success => same result."""
+    k, n, maxlen = shard
+    part = Part()
+    set_mode(True)
+    db = emit.load_db(dispatch_db())
+    layer = db.diag_layers["LDI"]
+    alpha = [0x62, 0x22, 0x10, 0x50, 0x01, 0x00, 0x41, 0xC3]
+    msgs = [bytes(t) for ln in range(0, maxlen + 1) for t in itertools.product(alpha, repeat=ln)]
+    for i, m in enumerate(msgs):
+        if i % n != k:
+            continue
+        for api, fn in (("decode", lambda: layer.decode(m)), ("decode_response/2201", lambda: layer.decode_response(m, bytes([0x22, 0x01]))),
+                        ("decode_response/1005", lambda: layer.decode_response(m, bytes([0x10, 0x05])))):
+            part.count("evaluations")
+            set_mode(True)
+            s = _layer_outcome(fn)
+            set_mode(False)
+            l = _layer_outcome(fn)
+            set_mode(True)
+            if s[0] == "ok":
+                part.count("strict_successes")
+                part.add("nontrivial", digest(("dispatch", api, m.hex())))
+                if jdump(s) != jdump(l):
+                    part.violation(f"C17/corpus/dispatch/{api.split('/')[0]}/lenient-result-differs", {"mode": "dispatch", "api": api, "pdu": m.hex()},
+                                   f"{api}({m.hex()}): strict {s[1]} lenient {l}")
+            else:
+                part.count("strict_failures")
+    set_mode(True)
+    return part
+
+
 def run(ctx: Ctx) -> None:
     try:
         maxlen = 3 if ctx.quick else 4
@@ -268,6 +433,8 @@ def run(ctx: Ctx) -> None:
                     ctx.violation(f"C17/menu/{name}/not-an-error-in-strict-mode", {"mode": "menu", "op": name}, f"fresh strict process: {s}")
                 elif l[0] == "error" and l[1] == s[1]:
                     ctx.violation(f"C17/menu/{name}/not-downgraded-in-lenient-mode", {"mode": "menu", "op": name}, f"fresh lenient process: {l}")
+            elif name in CLI_OPS:
+                pass
             else:
                 if s != l or s[0] != "ok":
                     ctx.violation(f"C17/menu/{name}/valid-operation-depends-on-mode", {"mode": "menu", "op": name}, f"strict {s} lenient {l}")
@@ -284,6 +451,7 @@ def run(ctx: Ctx) -> None:
             space.layer_a_string_units(True) + space.layer_a_mask_units(True) + space.layer_a_float_units(True) + space.layer_a_int_units(True)[::3]
         cunits += a_units
         pmap(ctx, corpus_unit, cunits)
+        pmap(ctx, dispatch_unit, [(k, 16, 4 if ctx.quick else 5) for k in range(16)])
         ctx.counts["traces_validated_against_impl"] = ctx.counts.get("evaluations", 0)
         ctx.sample({"ops": ["decode-invalid-utf8", "encode-valid", "decode-invalid-utf8"], "modes": ["strict", "lenient", "strict"]})
         ctx.guard("strict successes > 1000", ctx.counts.get("strict_successes", 0) > 1000)
@@ -316,9 +484,25 @@ def replay(case: Any) -> List[Tuple[str, str]]:
             out = []
             for i, (op, mode, got) in enumerate(zip(ops, modes, res)):
                 want = (base_s if mode else base_l)[MENU_NAMES[op]]
-                if json.dumps(list(want)) != json.dumps([got[0], got[1]]):
+                if got[0] == "mode-left-changed":
+                    out.append((f"C17/flip/{MENU_NAMES[op]}/leaves-the-mode-changed", str(got)))
+                elif json.dumps(list(want)) != json.dumps([got[0], got[1]]):
                     out.append((f"C17/flip/{MENU_NAMES[op]}/{'strict' if mode else 'lenient'}-step-differs-from-fresh-process", f"{got} vs {want}"))
             return out
+        if case["mode"] == "dispatch":
+            set_mode(True)
+            db = emit.load_db(dispatch_db())
+            layer = db.diag_layers["LDI"]
+            m = bytes.fromhex(case["pdu"])
+            api = case["api"]
+            fn = (lambda: layer.decode(m)) if api == "decode" else (lambda: layer.decode_response(m, bytes.fromhex(api.split("/")[1])))
+            s_ = _layer_outcome(fn)
+            set_mode(False)
+            l_ = _layer_outcome(fn)
+            set_mode(True)
+            if s_[0] == "ok" and jdump(s_) != jdump(l_):
+                return [(f"C17/corpus/dispatch/{api.split('/')[0]}/lenient-result-differs", f"strict {s_} lenient {l_}")]
+            return []
         from checks.codec_common import case_prog
         prog = case_prog(case["program"], case.get("values"))
         if case.get("pdu") is not None:
